@@ -137,21 +137,21 @@ class ConvHarness(Harness):
         ln = b[1]
         aw_v = w_v = ar_v = aw_r = ar_r = b_v = r_v = (0,)
         b_r = r_r = w_r = (1,)
-        if W is not None:
+        if W is not None and not self.w_done(b, W):
             m_aw, m_wi, m_wh, s_aw, s_wn, s_buf, pos, s_wl, s_b, m_b = W
             aw_v = {0: (0, 1), 1: (1,), 2: (0,)}[m_aw]
             w_v = ((1,) if m_wh else (0, 1)) if m_wi <= ln else (0,)
             aw_r = (0, 1) if s_aw is None else (0,)
             w_r = (0, 1) if not s_wl else (1,)
             b_v = {0: (0,), 1: (0, 1), 2: (1,), 3: (0,)}[s_b]
-            b_r = (0, 1) if (s_b in (1, 2) and not m_b) else (1,)
-        if R is not None:
+            b_r = (0, 1)
+        if R is not None and not self.r_done(b, R):
             m_ar, s_ar, s_rn, s_rh, m_rn, m_rl = R
             ar_v = {0: (0, 1), 1: (1,), 2: (0,)}[m_ar]
             ar_r = (0, 1) if s_ar is None else (0,)
             if s_ar is not None and s_rn <= s_ar[1]:
                 r_v = (1,) if s_rh else (0, 1)
-            r_r = (0, 1) if (s_ar is not None and not m_rl) else (1,)
+            r_r = (0, 1)
         return list(itertools.product(aw_v, w_v, b_r, ar_v, r_r, aw_r, w_r, b_v, ar_r, r_v))
 
     # ---- inputs --------------------------------------------------------------------------------------------
